@@ -4,26 +4,36 @@ import shutil
 import tempfile
 
 import common as C
+from props import _runseq
 
 PROPERTY = "C19"
-LEAN_MODULES = ["LccModel.Props.C19"]
-PROPS_FILES = ["LccModel/Props/C19.lean"]
-NAMESPACES = {"LccModel/Props/C19.lean": "LccModel.C19"}
+LEAN_MODULES = ["LccModel.Props.C19", "LccModel.Props.C19Runs"]
+PROPS_FILES = ["LccModel/Props/C19.lean", "LccModel/Props/C19Runs.lean"]
+NAMESPACES = {"LccModel/Props/C19.lean": "LccModel.C19", "LccModel/Props/C19Runs.lean": "LccModel.C19Runs"}
 DRIVER = "drivers/C19.lean"
 TRUSTED_BASE = [
     "Lean 4.33.0 kernel; axioms of the property theorems ⊆ {propext, Classical.choice, Quot.sound}",
     "hand-written model LccModel/Model/ReportDir.lean of reporting/reportdir.py (create_report_dir_with_rotation and helpers)",
     "correspondence harness harness/props/c19.py: the real function is run on a scratch directory for every generated history",
     "POSIX rename/mkdir/rmtree semantics and glob listing are represented by the slot table (validated by the stream, not proved)",
-]
+] + _runseq.RUNS_TRUSTED
 ASSUMPTIONS = [
     "directories under reports/ are only created by runs and removed by rmtree (no report-007, no plain files named report-<n>)",
-    "the archive limit passed by project.py is what create_report_dir_with_rotation receives (default 20, or the project's value)",
+    "the archive limit passed by project.py is what create_report_dir_with_rotation receives (default 20, or the project's value): "
+    "checked for the default implementation by the table defaultImplTable, for overrides by the runs stream",
+    "runs stream: a run's fate (fails before the report dir exists / aborts right after / completes) and whether it leaves files are read "
+    "off its options (--save-report bogus / $LCC_THREADS=abc, --threads 2 on a non-threaded project / json, html backends); runs of one "
+    "history are sequential (no two lcc run at the same time on one project directory)",
 ]
 RULE = ("history of run/delete/delete-current operations from an empty project directory; non-trivial = at least 3 runs and "
-        "(a manual deletion of an existing archive or a run that removed an archive); distinct = hash of the op list")
+        "(a manual deletion of an existing archive or a run that removed an archive); distinct = hash of the op list; " + _runseq.RUNS_RULE)
 EXPLANATION = ("Theorems over all histories (LccModel.C19.*) proved in Lean; the model is tied to reportdir.py by replaying every "
-               "generated history on a real scratch directory with marker files and comparing the listing after every operation.")
+               "generated history on a real scratch directory with marker files and comparing the listing after every operation. "
+               "The same sentences are proved about RUNS (LccModel.C19Runs.*: report dir source, project implementation and limit, runs that "
+               "leave their directory empty, failing runs, explicit directories) over a run-level model that is simulated onto the first one; "
+               "it is tied to cli/commands/run.py and project.py by driving sequences of real runs (cli.main, run_suites_from_project with "
+               "re-used Project / cli_args objects, subprocesses) on a real project directory, directories identified by inode, and by decision "
+               "tables of the glue (Generated/C19TablesCheck.lean).")
 
 
 def _listing(top):
@@ -221,5 +231,12 @@ class Hist(C.Stream):
             yield {"ops": ops[:i] + ops[i + 1:]}
 
 
+TABLE_OPENS = ("LccModel.RunSeq",)
+
+
+def tables(ctx):
+    return _runseq.tables(ctx)
+
+
 def streams(ctx):
-    return [Hist()]
+    return [Hist(), _runseq.Runs()]
